@@ -5,6 +5,7 @@ import SieveModel.Model.Client
 import SieveModel.Spec.WF
 import SieveModel.Model.Serialize
 import SieveModel.Model.FilterSet
+import SieveModel.Spec.Rfc5804
 /-! Line-protocol driver: one request per line on stdin, one answer per line on stdout. -/
 
 structure DState where
@@ -138,6 +139,14 @@ def answer (st : DState) (line : String) : DState × String :=
     match Machine.parse st.table t with
     | .accept r => (st, match Ser.script st.table r with | some b => "ok " ++ hexOr b | none => "crash")
     | _ => (st, "notaccepted")
+  | "dec" :: rest =>
+    -- strict RFC 5804 decoder on a whole write: one command, nothing left
+    let showArg : Rfc5804.SArg → String
+      | .str v => "s:" ++ hexOr v
+      | .num n => s!"n:{n}"
+    (st, match Rfc5804.command (hexArg rest) with
+      | some (verb, as, r) => if r.isEmpty then s!"ok {hexOr verb} " ++ ",".intercalate (as.map showArg) else "trailing"
+      | none => "bad")
   | "wf" :: rest => (st, (Spec.wfBytes st.table (hexArg rest)).name)
   | ["table-reset"] => ({ st with table := Generated.builtinTable }, "ok")
   | ["table-clear"] => ({ st with table := [] }, "ok")
